@@ -538,7 +538,7 @@ func main() {
 	// constants at 100, the uint8 edge at 255
 	{
 		g := mk("valid")
-		nMid := o.Count(110, 1500)
+		nMid := o.Count(110, 500)
 		for k := 0; k < nMid; k++ {
 			n := g.r.Range(6, 40)
 			if g.r.Chance(1, 5) {
@@ -546,7 +546,7 @@ func main() {
 			}
 			run(g.randomValidDkg(n, false), em, fmt.Sprintf("valid-%d", k))
 		}
-		nFull := o.Count(24, 300)
+		nFull := o.Count(24, 100)
 		for k := 0; k < nFull; k++ {
 			run(g.randomValidDkg(0, true), em, fmt.Sprintf("full-%d", k))
 		}
@@ -559,7 +559,7 @@ func main() {
 	// --- malformed stream
 	{
 		g := mk("malformed")
-		for k, n := 0, o.Count(60, 600); k < n; k++ {
+		for k, n := 0, o.Count(60, 300); k < n; k++ {
 			run(g.malformedDkg(), em, fmt.Sprintf("malformed-%d", k))
 		}
 	}
@@ -567,7 +567,7 @@ func main() {
 	// --- inactivity claims and wallet ids
 	{
 		g := mk("claims")
-		for k, n := 0, o.Count(60, 800); k < n; k++ {
+		for k, n := 0, o.Count(60, 300); k < n; k++ {
 			sz := g.r.Range(1, 30)
 			thr := sz/2 + 1
 			if g.r.Chance(1, 6) {
@@ -584,7 +584,7 @@ func main() {
 	// --- go-ethereum's packer and keep-common's signer against the model's encodings
 	{
 		g := mk("abi")
-		for k, n := 0, o.Count(60, 600); k < n; k++ {
+		for k, n := 0, o.Count(60, 300); k < n; k++ {
 			run(g.abiCase(), em, fmt.Sprintf("abi-%d", k))
 		}
 		for k, n := 0, o.Count(10, 100); k < n; k++ {
